@@ -162,9 +162,15 @@ async fn _validate_cas_object_from_async_read<R: AsyncRead + Unpin>(
             }
         }
 
-        let mut prefixsum = 0;
+        let mut prefixsum: u32 = 0;
         for (parsed, computed_chunk) in cas_object_info.unpacked_chunk_offsets.iter().zip(chunk_hash_and_size.iter()) {
-            prefixsum += computed_chunk.length as u32;
+            // the footer stores unpacked offsets as u32; reject instead of overflowing
+            prefixsum = u32::try_from(computed_chunk.length)
+                .ok()
+                .and_then(|len| prefixsum.checked_add(len))
+                .ok_or_else(|| {
+                    CasObjectError::FormatError(anyhow!("unpacked chunk offsets exceed the 32-bit range of the xorb format"))
+                })?;
             if *parsed != prefixsum {
                 return Err(CasObjectError::FormatError(anyhow!(
                     "found unpacked chunk offset in xorb footer that does not match the corresponding chunk's actual unpacked length"
